@@ -7,7 +7,7 @@
 From Coq Require Import List Arith NArith ZArith Lia Bool ZifyN ZifyNat ZifyBool.
 From GoMC Require Import Base.Bytes Base.Bits Base.Dec Base.GoInt Gen.Consts Gen.Funcs Gen.C06gen Gen.C11gen
   Model.C05 Model.C06_syntax Model.C11_syntax.
-From GoMC Require Model.C11 Proofs.C11 Proofs.C11_tie Proofs.C06_tie_r Proofs.C06_tie_w Model.C06.
+From GoMC Require Model.C11 Proofs.C11 Proofs.C11_laws Proofs.C11_pack Proofs.C11_wire Proofs.C11_tie Proofs.C06_tie_r Proofs.C06_tie_w Model.C06.
 Import ListNotations.
 Ltac Zify.zify_post_hook ::= Z.div_mod_to_equations.
 Local Open Scope Z_scope.
@@ -209,7 +209,7 @@ Proof. vm_compute. reflexivity. Qed.
 (* ---- ReadFrom.  The model issues ONE ReadFull of 8*Len bytes and cuts it into longs; the code (and its
    translation) issues Len reads of 8 bytes each and stores long i into b.data[i].  read_longs is the
    common description: k big-endian longs, one after the other. *)
-Import Proofs.C06_tie_r.
+Import Proofs.C06_tie_r. From GoMC Require Proofs.C05.
 Fixpoint read_longs (k : nat) (s : list N) : option (list N * list N) :=
   match k with
   | O => Some ([], s)
@@ -339,3 +339,270 @@ Proof.
   - rewrite T. reflexivity.
 Qed.
 End RdLoop.
+
+(* the spare capacity the destination is left with: the tail of the old backing array when it is reused
+   (cap(b.data) >= Len), none when a fresh array is allocated *)
+Definition spare_after (b : gbs) (len : Z) : list Z :=
+  if len <=? zlen (g_data b) + zlen (g_data_spare b) then zdrop len (g_data b ++ g_data_spare b) else [].
+
+(* ReadFrom into ANY prior destination state b (any longs, any spare capacity, any field values), on ANY
+   byte string: the translated reader and the model's reader agree on the outcome class, the error class,
+   the bytes left, the count, and the state left in the destination - the decoded longs ARE b.data, the
+   other fields are untouched *)
+Lemma tie_Read b s : all_bytes s ->
+  run_flat (c11_BitStorage_ReadFrom varint_rd b) s =
+  match run_flat (C11.bs_read (abs b)) s with
+  | FOk (st', n) rest =>
+      FOk (set_g_data b (map Z.of_N (C11.data st'), spare_after b (Z.of_N (lenN (C11.data st')))), Z.of_N n) rest
+  | FErr e => FErr e
+  | FPanic w => FPanic w
+  | FFuel => FFuel
+  end.
+Proof.
+  intros Hs. unfold c11_BitStorage_ReadFrom, C11.bs_read. cbv zeta.
+  rewrite run_flat_bind by apply robust_varint_rd. rewrite run_flat_bind by apply Proofs.C05.read32_robust.
+  rewrite run_varint_rd. destruct (run_flat read32 s) as [[l n] rest| | |] eqn:E; try reflexivity.
+  destruct (read32_facts s l n rest Hs E) as (Rl & Rn & Hr).
+  cbv beta iota. change (2 ^ 31) with 2147483648 in Rl.
+  destruct (Z.ltb_spec l 0) as [Neg|Pos]; [reflexivity|].
+  rewrite (wrap_s_id 64 l) by (w64; lia).
+  assert (Hlen : forall ls, (8 * Z.to_N l <= lenN rest)%N -> ls = C11.longs_of (takeN (8 * Z.to_N l) rest) ->
+                 Z.of_N (lenN ls) = l).
+  { intros ls Hle ->. pose proof (read_longs_spec (Z.to_nat l) rest) as R.
+    replace (N.of_nat (Z.to_nat l)) with (Z.to_N l) in R by lia.
+    destruct (N.leb_spec (8 * Z.to_N l) (lenN rest)); [|lia].
+    apply read_longs_len in R. unfold lenN. lia. }
+  unfold spare_after.
+  destruct (Z.leb_spec l (zlen (g_data b) + zlen (g_data_spare b))) as [Fit|Small].
+  - rewrite zlen_app. destruct (Z.ltb_spec l 0) as [?|_]; [lia|].
+    destruct (Z.ltb_spec (zlen (g_data b) + zlen (g_data_spare b)) l) as [?|_]; [lia|]. cbn [orb].
+    set (b1 := set_g_data b (ztake l (g_data b ++ g_data_spare b), zdrop l (g_data b ++ g_data_spare b))).
+    assert (Hb1 : length (g_data b1) = Z.to_nat l).
+    { unfold b1, set_g_data. cbn [g_data fst]. apply ztake_length. rewrite zlen_app. lia. }
+    assert (Ez : zlen (g_data b1) = l) by (unfold zlen, lenN; lia). rewrite Ez.
+    rewrite (rd_finish c11_BitStorage_ReadFrom_loop1 (fun _ _ _ _ _ => eq_refl) (fun _ _ _ _ _ _ => eq_refl)
+               (g_data b1) l n b1 rest Hr ltac:(change (2 ^ 31) with 2147483648; lia) Rn Hb1).
+    cbn [run_flat C11.set_data C11.data].
+    destruct (N.leb_spec (8 * Z.to_N l) (lenN rest)) as [Le|Le]; [|reflexivity].
+    cbn [run_flat C11.set_data C11.data].
+    rewrite (Hlen _ Le eq_refl).
+    destruct (Z.leb_spec l (zlen (g_data b) + zlen (g_data_spare b))) as [_|?]; [|lia].
+    unfold b1, set_g_data. cbn [g_data g_data_spare g_mask g_bits g_length g_valuesPerLong fst snd]. reflexivity.
+  - destruct (Z.ltb_spec l 0) as [?|_]; [lia|].
+    set (b1 := set_g_data b (zrepeat l, [])).
+    assert (Hb1 : length (g_data b1) = Z.to_nat l).
+    { unfold b1, set_g_data. cbn [g_data fst]. apply zrepeat_length. }
+    assert (Ez : zlen (g_data b1) = l) by (unfold zlen, lenN; lia). rewrite Ez.
+    rewrite (rd_finish c11_BitStorage_ReadFrom_loop2 (fun _ _ _ _ _ => eq_refl) (fun _ _ _ _ _ _ => eq_refl)
+               (g_data b1) l n b1 rest Hr ltac:(change (2 ^ 31) with 2147483648; lia) Rn Hb1).
+    cbn [run_flat C11.set_data C11.data].
+    destruct (N.leb_spec (8 * Z.to_N l) (lenN rest)) as [Le|Le]; [|reflexivity].
+    cbn [run_flat C11.set_data C11.data].
+    rewrite (Hlen _ Le eq_refl).
+    destruct (Z.leb_spec l (zlen (g_data b) + zlen (g_data_spare b))) as [?|_]; [lia|].
+    unfold b1, set_g_data. cbn [g_data g_data_spare g_mask g_bits g_length g_valuesPerLong fst snd]. reflexivity.
+Qed.
+
+(* ================= headline theorems over translated code only ================= *)
+Lemma write32_bytes v : all_bytes (write32 v).
+Proof.
+  unfold write32. cbv zeta.
+  repeat match goal with |- all_bytes (if ?c then _ else _) => destruct c end;
+  unfold all_bytes; repeat (apply Forall_app; split); try apply be_bytes;
+  repeat constructor; unfold is_byte; apply N.mod_lt; discriminate.
+Qed.
+
+Lemma image_bytes st : all_bytes (fst (C11.bs_write st)).
+Proof.
+  unfold C11.bs_write. cbn [fst]. unfold all_bytes. apply Forall_app. split; [apply write32_bytes|].
+  induction (C11.data st) as [|x t IH]; [constructor|]. cbn [map concat]. apply Forall_app. split; [apply be_bytes|exact IH].
+Qed.
+
+(* ---- wire round trip: translated WriteTo, translated ReadFrom into any destination, translated Fix *)
+Theorem wire_roundtrip_translated st sp dm dsp rest :
+  Proofs.C11.wf st -> (lenN (C11.data st) < 2 ^ 31)%N -> C11.blen dm = C11.blen st -> all_bytes rest ->
+  exists n img d' sp',
+    c11_BitStorage_WriteTo (Some (inj st sp)) = (n, 0%N, img) /\ n = zlen img /\
+    run_flat (c11_BitStorage_ReadFrom varint_rd (inj dm dsp)) (map Z.to_N img ++ rest) = FOk (d', n) rest /\
+    c11_BitStorage_Fix d' (C11.bits st) = (inj st sp', GRet None) /\
+    c11_BitStorage_Raw (Some (inj st sp')) = c11_BitStorage_Raw (Some (inj st sp)).
+Proof.
+  intros W HL Hlen Hrest.
+  destruct (Proofs.C11_wire.wire_roundtrip st dm rest W HL Hlen) as (d'm & Hrd & Hcnt & Hfix).
+  exists (Z.of_N (snd (C11.bs_write st))), (map Z.of_N (fst (C11.bs_write st))).
+  assert (Hab : all_bytes (fst (C11.bs_write st) ++ rest)) by (apply Forall_app; split; [apply image_bytes|exact Hrest]).
+  pose proof (tie_Read (inj dm dsp) (fst (C11.bs_write st) ++ rest) Hab) as TR.
+  rewrite abs_inj, Hrd in TR.
+  eexists. eexists. split.
+  { apply tie_Write; [apply W|]. change (2 ^ 31)%N with 2147483648%N in HL. change (2 ^ 59)%N with 576460752303423488%N. lia. }
+  split; [rewrite Hcnt, zlen_map_of_N; reflexivity|].
+  split; [rewrite map_to_N_of_N; exact TR|].
+  assert (Hb : in_int (C11.blen d'm)).
+  { assert (E : C11.blen d'm = C11.blen dm).
+    { unfold C11.bs_read in Hrd. rewrite run_flat_bind in Hrd by apply Proofs.C05.read32_robust.
+      destruct (run_flat read32 _) as [[cnt n0] r| | |]; try discriminate.
+      destruct (cnt <? 0); [discriminate|]. cbn [run_flat] in Hrd.
+      destruct (_ <=? _)%N; [|discriminate]. cbn [run_flat] in Hrd. injection Hrd as <- _ _. reflexivity. }
+    rewrite E, Hlen. pose proof (Proofs.C11.wf_len st W). pose proof (Proofs.C11.wf_size st W) as S.
+    pose proof (Proofs.C11.wf_bits st W) as Bb. pose proof (Proofs.C11.vpl_pos (Proofs.C11.wbits st) ltac:(lia)) as V.
+    rewrite (Proofs.C11.wf_vpl st W) in S. change (2 ^ 31)%N with 2147483648%N in HL. unfold lenN in HL.
+    assert (Vle : (C11.spec_vpl (Proofs.C11.wbits st) <= 64)%N).
+    { unfold C11.spec_vpl. apply N.div_le_upper_bound; lia. }
+    unfold in_int. change (2 ^ 62) with 4611686018427387904. nia. }
+  replace (set_g_data (inj dm dsp) (map Z.of_N (C11.data d'm), spare_after (inj dm dsp) (Z.of_N (lenN (C11.data d'm)))))
+    with (inj d'm (spare_after (inj dm dsp) (Z.of_N (lenN (C11.data d'm))))).
+  - rewrite tie_Fix by exact Hb. rewrite Hfix. split; reflexivity.
+  - assert (E : d'm = C11.set_data dm (C11.data d'm)).
+    { unfold C11.bs_read in Hrd. rewrite run_flat_bind in Hrd by apply Proofs.C05.read32_robust.
+      destruct (run_flat read32 _) as [[cnt n0] r| | |]; try discriminate.
+      destruct (cnt <? 0); [discriminate|]. cbn [run_flat] in Hrd.
+      destruct (_ <=? _)%N; [|discriminate]. cbn [run_flat] in Hrd. injection Hrd as <- _ _. reflexivity. }
+    rewrite E at 1. reflexivity.
+Qed.
+
+(* ---- histories of the TRANSLATED Get / Set / Swap (Gen/Funcs.v) on the record the TRANSLATED constructor
+   returns: the receiver's fields are read from the record, b.data[c] is znth, the write log a call returns
+   is applied to b.data *)
+Inductive tout := TRet (v : Z) | TUnit | TPanic.
+Definition gdataf (b : gbs) : Z -> Z := fun c => znth (g_data b) c.
+Definition apply_log (ws : list (Z * Z)) (b : gbs) : gbs :=
+  set_g_data b (fold_left (fun d w => zupd d (fst w) (snd w)) ws (g_data b), g_data_spare b).
+Definition t_step (b : gbs) (o : C11.aop) : gbs * tout :=
+  match o with
+  | C11.AGet i =>
+      match level_BitStorage_Get i (g_valuesPerLong b) (g_length b) (g_bits b) (gdataf b) (g_mask b) with
+      | GoRet v => (b, TRet v) | GoPanic => (b, TPanic) end
+  | C11.ASet i v =>
+      match level_BitStorage_Set i v (g_valuesPerLong b) (g_mask b) (g_length b) (g_bits b) (gdataf b) with
+      | GoRet ws => (apply_log ws b, TUnit) | GoPanic => (b, TPanic) end
+  | C11.ASwap i v =>
+      match level_BitStorage_Swap i v (g_valuesPerLong b) (g_mask b) (g_length b) (g_bits b) (gdataf b) with
+      | GoRet (old, ws) => (apply_log ws b, TRet old) | GoPanic => (b, TPanic) end
+  end.
+Fixpoint t_run (b : gbs) (ops : list C11.aop) : gbs * list tout :=
+  match ops with
+  | [] => (b, [])
+  | o :: t => let '(b1, r) := t_step b o in let '(b2, rs) := t_run b1 t in (b2, r :: rs)
+  end.
+(* the specification's outcomes with the panic value forgotten (gores carries none) *)
+Definition erase (o : C11.outcome) : tout :=
+  match o with C11.ORet v => TRet v | C11.OUnit => TUnit | C11.OErr => TUnit | C11.OPanic _ => TPanic end.
+
+Lemma Get_ext i a l bt f g m : (forall c, f c = g c) ->
+  level_BitStorage_Get i a l bt f m = level_BitStorage_Get i a l bt g m.
+Proof.
+  intros H. unfold level_BitStorage_Get. destruct (a =? 0); [reflexivity|].
+  destruct (_ || _)%bool; [reflexivity|]. destruct (level_BitStorage_calcIndex i a bt) as [c off]. rewrite H. reflexivity.
+Qed.
+Lemma Set_ext i v a m l bt f g : (forall c, f c = g c) ->
+  level_BitStorage_Set i v a m l bt f = level_BitStorage_Set i v a m l bt g.
+Proof.
+  intros H. unfold level_BitStorage_Set. cbv zeta. destruct (a =? 0); [reflexivity|].
+  destruct (_ || _)%bool; [reflexivity|]. destruct (_ || _)%bool; [reflexivity|].
+  destruct (level_BitStorage_calcIndex i a bt) as [c off]. unfold read_buf. cbn [fold_left]. rewrite H. reflexivity.
+Qed.
+Lemma Swap_ext i v a m l bt f g : (forall c, f c = g c) ->
+  level_BitStorage_Swap i v a m l bt f = level_BitStorage_Swap i v a m l bt g.
+Proof.
+  intros H. unfold level_BitStorage_Swap. cbv zeta. destruct (a =? 0); [reflexivity|].
+  destruct (_ || _)%bool; [reflexivity|]. destruct (_ || _)%bool; [reflexivity|].
+  destruct (level_BitStorage_calcIndex i a bt) as [c off]. unfold read_buf. cbn [fold_left]. rewrite H. reflexivity.
+Qed.
+
+Lemma gdataf_inj st sp c : gdataf (inj st sp) c = C11_tie.dataf st c.
+Proof. unfold gdataf, inj, C11_tie.dataf, znth. cbn [g_data]. change 0 with (Z.of_N 0). apply map_nth. Qed.
+
+Lemma upd_nth_map d : forall c w, upd_nth (map Z.of_N d) c (Z.of_N w) = map Z.of_N (C11.upd_nth d c w).
+Proof. induction d as [|x d IH]; intros [|c] w; cbn; try reflexivity. rewrite IH. reflexivity. Qed.
+
+Lemma apply_one st sp c w :
+  apply_log [(Z.of_nat c, Z.of_N w)] (inj st sp) = inj (C11.set_data st (C11.upd_nth (C11.data st) c w)) sp.
+Proof.
+  unfold apply_log, inj, set_g_data, zupd. cbn [fold_left fst snd g_data g_data_spare g_mask g_bits g_length g_valuesPerLong
+    C11.set_data C11.data C11.mask C11.bits C11.blen C11.vpl].
+  rewrite Nat2Z.id, upd_nth_map. reflexivity.
+Qed.
+Lemma apply_none st sp : apply_log [] (inj st sp) = inj st sp.
+Proof. unfold apply_log. cbn [fold_left]. apply set_g_data_id. Qed.
+
+Lemma wf_fields_ok st : Proofs.C11.wf st -> C11.blen st < 2 ^ 31 -> C11_tie.fields_ok st.
+Proof.
+  intros W Hl. pose proof (Proofs.C11.wf_bits st W) as Bb.
+  pose proof (Proofs.C11.vpl_pos (Proofs.C11.wbits st) ltac:(lia)) as V.
+  unfold C11_tie.fields_ok. rewrite (Proofs.C11.wf_vpl st W), (Proofs.C11.wf_mask st W).
+  pose proof (Proofs.C11.wf_len st W). pose proof (Proofs.C11.wf_b st W).
+  assert (Vle : (C11.spec_vpl (Proofs.C11.wbits st) <= 64)%N) by (unfold C11.spec_vpl; apply N.div_le_upper_bound; lia).
+  repeat split; try lia.
+  eapply N.lt_le_trans; [apply Proofs.C11.ones_lt|]. apply Proofs.C11.pow2_mono. lia.
+Qed.
+
+Lemma no_rt st o : Proofs.C11.wf st -> Proofs.C11.op_ints o -> snd (C11.bs_step st o) <> C11.OPanic C11.pRt.
+Proof.
+  intros W Ho. destruct (Proofs.C11.step_refines st o W Ho) as (_ & _ & _ & S).
+  assert (E : snd (C11.bs_step st o) = snd (C11.spec_step (Proofs.C11.wbits st) (Proofs.C11.abs st) o)) by (rewrite S; reflexivity).
+  rewrite E. unfold C11.spec_step. destruct o; cbv zeta;
+  repeat match goal with |- context [if ?c then _ else _] => destruct c end; cbn [snd]; discriminate.
+Qed.
+
+Lemma t_step_sim st sp o : Proofs.C11.wf st -> C11.blen st < 2 ^ 31 -> Proofs.C11.op_ints o ->
+  t_step (inj st sp) o = (inj (fst (C11.bs_step st o)) sp, erase (snd (C11.bs_step st o))).
+Proof.
+  intros W Hl Ho. pose proof (wf_fields_ok st W Hl) as F. pose proof (no_rt st o W Ho) as NR.
+  pose proof (Proofs.C11.vpl_nz st W) as VZ.
+  destruct o as [i|i v|i v]; cbn [C11.bs_step] in *; unfold t_step, inj at 1 2 3 4 5 6;
+    cbn [g_data g_data_spare g_mask g_bits g_length g_valuesPerLong]; fold (inj st sp).
+  - rewrite (Get_ext _ _ _ _ _ (C11_tie.dataf st)) by (intros; apply gdataf_inj).
+    rewrite (C11_tie.tie_Get st i F NR). rewrite Proofs.C11_laws.get_state.
+    unfold C11.bs_get in *. rewrite VZ in *. destruct (C11.bad_index st i); [reflexivity|].
+    destruct (C11.locate st i) as [[[c off] l]|]; cbn [snd] in *; [reflexivity|congruence].
+  - rewrite (Set_ext _ _ _ _ _ _ _ (C11_tie.dataf st)) by (intros; apply gdataf_inj).
+    rewrite (C11_tie.tie_Set st i v F NR).
+    unfold C11.bs_set in *. rewrite VZ in *. destruct (C11.bad_value st v); [destruct (C11.locate st i) as [[[? ?] ?]|]; reflexivity|].
+    destruct (C11.bad_index st i); [destruct (C11.locate st i) as [[[? ?] ?]|]; reflexivity|].
+    destruct (C11.locate st i) as [[[c off] l]|]; cbn [fst snd] in *; [|congruence].
+    rewrite apply_one. reflexivity.
+  - rewrite (Swap_ext _ _ _ _ _ _ _ (C11_tie.dataf st)) by (intros; apply gdataf_inj).
+    rewrite (C11_tie.tie_Swap st i v F NR).
+    unfold C11.bs_swap in *. rewrite VZ in *. destruct (C11.bad_value st v); [destruct (C11.locate st i) as [[[? ?] ?]|]; reflexivity|].
+    destruct (C11.bad_index st i); [destruct (C11.locate st i) as [[[? ?] ?]|]; reflexivity|].
+    destruct (C11.locate st i) as [[[c off] l]|]; cbn [fst snd] in *; [|congruence].
+    rewrite apply_one. reflexivity.
+Qed.
+
+Lemma t_run_sim : forall ops st sp, Proofs.C11.wf st -> C11.blen st < 2 ^ 31 -> Forall Proofs.C11.op_ints ops ->
+  t_run (inj st sp) ops = (inj (fst (C11.bs_run st ops)) sp, map erase (snd (C11.bs_run st ops))).
+Proof.
+  induction ops as [|o t IH]; intros st sp W Hl Hops; [reflexivity|].
+  inversion Hops as [|? ? Ho Ht]; subst.
+  cbn [t_run C11.bs_run]. rewrite (t_step_sim st sp o W Hl Ho).
+  destruct (Proofs.C11.step_refines st o W Ho) as (W1 & _ & L1 & _).
+  destruct (C11.bs_step st o) as [s1 r]. cbn [fst snd] in *.
+  rewrite (IH s1 sp W1 ltac:(lia) Ht). destruct (C11.bs_run s1 t) as [s2 rs]. reflexivity.
+Qed.
+
+(* ANY history of translated Get / Set / Swap on the storage the translated NewBitStorage(bits, n, nil)
+   returns behaves as the checked array of n unsigned b-bit integers, initially all 0: same outcomes (value,
+   normal return, panic), and the raw longs afterwards are the 1.16+ packing of the array's final contents *)
+Theorem array_semantics_translated bts n ops b0 :
+  1 <= bts <= 63 -> 0 <= n < 2 ^ 31 -> Forall Proofs.C11.op_ints ops ->
+  c11_NewBitStorage bts n None = GRet b0 ->
+  let r := t_run b0 ops in
+  let sp := C11.spec_run (Z.to_N bts) (repeat 0%N (Z.to_nat n)) ops in
+  snd r = map erase (snd sp) /\
+  c11_BitStorage_Raw (Some (fst r)) = map Z.of_N (C11.pack (Z.to_N bts) (fst sp)) /\
+  c11_BitStorage_Len (fst r) = n /\ length (fst sp) = Z.to_nat n.
+Proof.
+  intros Hb Hn Hops Hnew. change (2 ^ 31) with 2147483648 in Hn.
+  destruct (Proofs.C11.new_zero bts n Hb ltac:(lia)) as (st0 & N0 & W0 & B0 & L0 & A0 & D0).
+  pose proof (tie_New bts n None ltac:(unfold in_int; change (2 ^ 62) with 4611686018427387904; lia)) as T.
+  cbn [option_map] in T. rewrite N0, Hnew in T. injection T as ->.
+  cbv zeta. rewrite (t_run_sim ops st0 [] W0 ltac:(change (2 ^ 31) with 2147483648; lia) Hops). cbn [fst snd].
+  destruct (Proofs.C11.run_refines ops st0 W0 Hops) as (W1 & B1 & L1 & S1).
+  assert (Ew : Proofs.C11.wbits st0 = Z.to_N bts) by (unfold Proofs.C11.wbits; rewrite B0; reflexivity).
+  rewrite Ew, A0 in S1. rewrite S1. cbn [fst snd].
+  split; [reflexivity|]. split; [|split].
+  - cbn [c11_BitStorage_Raw inj g_data]. f_equal.
+    exact (Proofs.C11_pack.raw_is_pack bts n ops st0 Hb ltac:(lia) Hops N0).
+  - cbn [c11_BitStorage_Len inj g_length]. rewrite L1. exact L0.
+  - rewrite Proofs.C11.abs_length, L1, L0. reflexivity.
+Qed.
